@@ -79,7 +79,8 @@ package croncontroller
 //@ func CronWorker.Work
 //@   tags C01, C04
 //@   requires w != nil && cronschedule.swf(w.schedule)
-//@   modifies enqN, enqKey, enqTs, enqPerKey, clock, w.schedule.jobConfigs.pq.queue, arrays(*heap.Item), mapof(w.schedule.jobConfigs.pq.names), heap(heap.Item)
+//@   requires chanrecvd(w.updatedConfigs) <= chansent(w.updatedConfigs) && (forall i int :: chanrecvd(w.updatedConfigs) <= i && i < chansent(w.updatedConfigs) ==> chanat(w.updatedConfigs, i) != nil)
+//@   modifies chanof(w.updatedConfigs), enqN, enqKey, enqTs, enqPerKey, clock, w.schedule.jobConfigs.pq.queue, arrays(*heap.Item), mapof(w.schedule.jobConfigs.pq.names), heap(heap.Item)
 //@   loop 1 invariant cronschedule.swf(w.schedule) && scheduledCount != nil && fresh(scheduledCount) && scheduledCount != w.schedule.jobConfigs.pq.names
 //@   loop 1 invariant enqN >= old(enqN) && clock >= old(clock)
 //@   loop 1 invariant never-early: forall i int :: old(enqN) <= i && i < enqN ==> enqTs[i] <= clock
